@@ -269,7 +269,8 @@ MANIFEST = dict(
           'attaches the release of that same permit to the task future (for untagged / upload-tagged / download-tagged '
           'tasks); every submit site of every submission function hands request tasks to the request executor and write '
           'tasks to the IO executor, and each request task issues exactly one client operation.'
-          ' Released stream writes are submitted to the IO executor inside the critical section that released them.'),
+          ' Released stream writes are submitted to the IO executor inside the critical section that released them.'
+          " Also: TransferConfig.__init__ stores each argument in its own field and rejects non-positive values (verified on unvalidated objects); the user's config is the one used; NonThreadedExecutorFuture.add_done_callback runs at once on a finished future."),
     note=('The instant-by-instant bound is derived from these contracts plus A-EXECUTOR (ThreadPoolExecutor runs at most '
           'max_workers callables) and the semaphore invariants (C12, threading.Semaphore); it is not observed on a schedule. '
           'abort_multipart_upload runs in the announcing thread (not among the bounded requests of the statement).'),
